@@ -50,6 +50,13 @@ def fixed_configs(tier, seed, keras3=False):
               out.append({"cls": "quantized_relu", "kw": kw2})
             continue
           out.append({"cls": "quantized_relu", "kw": kw})
+  # a constant *per-channel* scale (tensor alpha, the form quantized_linear's docstring feeds back from an auto run)
+  for bits in (2, 4, 8):
+    for integer in (0, 1):
+      for keep in (True, False):
+        for sym in (0, 1):
+          out.append({"cls": "quantized_linear", "kw": {"bits": bits, "integer": integer, "keep_negative": keep, "symmetric": sym},
+                      "tensor_alpha": [0.5, 1.0, 4.0]})
   sig_modes = ("hard", "smooth") if not keras3 else ("hard",)
   for bits in bits_rng:
     for sym in (False, True):
@@ -68,7 +75,7 @@ def fixed_configs(tier, seed, keras3=False):
   # every 4th configuration is also reached by re-assigning attributes of a live object (vf.qenv.build)
   extra = []
   for c in out[::4]:
-    if c["cls"] in ("quantized_bits", "quantized_linear", "quantized_relu") and "use_sigmoid" not in c["kw"]:
+    if c["cls"] in ("quantized_bits", "quantized_linear", "quantized_relu") and "use_sigmoid" not in c["kw"] and "tensor_alpha" not in c:
       extra.append(dict(c, kw=dict(c["kw"]), route="mutate"))
   out = out + extra
   rnd.shuffle(out)
